@@ -158,6 +158,11 @@ static void do_op(world& w, actor_ctx& A, opdesc const& o)
     switch (o.k)
     {
     case o_yield:
+        if (o.dl_ms > 0)    // a plain busy delay of o.dl_ms iterations
+        {
+            for (long i = 0; i < o.dl_ms; ++i) asm volatile("" ::: "memory");
+            return;
+        }
         if (A.on_pika) pika::this_thread::yield();
         else std::this_thread::yield();
         return;
@@ -295,9 +300,13 @@ int main(int argc, char** argv)
     // a timed wait on a plain OS thread that is notified before its deadline deadlocks (known
     // finding, see DESIGN.md): only generated in the dedicated "+ostimed" mode
     bool ostimed = mode.find("+ostimed") != std::string::npos;
-    if (ostimed) mode = mode.substr(0, mode.find('+'));
+    // "+focus": every history is one of two focused condition-variable scenarios (see below)
+    bool focus = mode.find("+focus") != std::string::npos;
+    if (ostimed || focus) mode = mode.substr(0, mode.find('+'));
     vlog::start_watchdog(150000);
     if (perturb) vctl::install(seed, 25, 100, 300, "cv.,mtx.,st.");
+    // focus mode: long holds of the internal lock by notifiers (delays while they pop / resume waiters)
+    if (perturb && focus) vctl::install(seed, 50, 100, 200, "cv.notifyall.pop,cv.notify.pop");
 
     std::vector<char*> av;
     av.push_back(argv[0]);
@@ -426,6 +435,33 @@ int main(int argc, char** argv)
                 }
             }
         }
+        // hand-over chain (timed mutex): a holder keeps the lock for a while; behind it wait a timed attempt
+        // with a generous deadline and blocking lockers.  Whoever is notified must either take the lock and
+        // pass it on, or - if it gives up - not swallow the hand-over
+        if (!cvmode && w.mkind == 1 && R.chance(1, 4))
+        {
+            for (int a = 0; a < nact; ++a) scripts[a].clear();
+            // actor 0: holder
+            scripts[0].push_back({o_lock, 0, false});
+            int hold = 4 + (int) R.below(6);
+            for (int i = 0; i < hold; ++i) scripts[0].push_back({o_yield, 0, false});
+            scripts[0].push_back({o_unlock, 0, false});
+            for (int a = 1; a < nact; ++a)
+            {
+                int pre = 1 + (int) R.below(3);
+                for (int i = 0; i < pre; ++i) scripts[a].push_back({o_yield, 0, false});
+                if (a == 1 || R.chance(1, 3))
+                {
+                    scripts[a].push_back({o_try_until, 3 + (long) R.below(12), false});
+                    scripts[a].push_back({o_unlock, 0, true});
+                }
+                else
+                {
+                    scripts[a].push_back({o_lock, 0, false});
+                    scripts[a].push_back({o_unlock, 0, false});
+                }
+            }
+        }
         // try_lock storm: every actor hammers try_lock (and short timed attempts) on the same mutex
         // at the same time; each attempt that reports success must really own the lock
         if (!cvmode && R.chance(1, 3))
@@ -449,14 +485,36 @@ int main(int argc, char** argv)
                 }
             }
         }
-        bool stopstorm = cvmode && !ostimed && R.chance(1, 3);
+        bool stopstorm = cvmode && !ostimed && (focus ? R.chance(1, 2) : R.chance(1, 3));
+        if (cvmode && focus && !stopstorm)
+        {
+            // queued setter: the waiters hold the user lock for a while before they wait, so the setter is
+            // already queued on it and sets the predicate and notifies the instant a waiter releases it
+            if (w.mkind >= 2)
+            {
+                w.mkind = (int) R.below(2);
+                if (w.mkind == 0) w.mtx = std::make_unique<mutex_of<pika::mutex>>();
+                else w.mtx = std::make_unique<timed_of>();
+            }
+            nact = 1 + (int) R.below(2);
+            scripts.assign(nact, {});
+            on_pika.assign(nact, true);
+            for (int a = 0; a < nact; ++a)
+            {
+                scripts[a].push_back({o_lock, 0, false});
+                int hold = 2 + (int) R.below(4);
+                for (int i = 0; i < hold; ++i) scripts[a].push_back({o_yield, 0, false});
+                scripts[a].push_back({R.chance(1, 2) ? o_loop_wait : o_wait_pred, 0, false});
+                scripts[a].push_back({o_unlock, 0, false});
+            }
+        }
         if (stopstorm)
         {
             // all actors wait with a stop token and a predicate that never becomes true; a stopper
             // notifies a few times (so waiters go round their loop) and then requests stop
             w.use_any = true;
             stop_waits = true;
-            nact = 3 + (int) R.below(2);
+            nact = focus ? 4 : 3 + (int) R.below(2);
             scripts.assign(nact, {});
             on_pika.assign(nact, true);
             for (int a = 0; a + 1 < nact; ++a)
@@ -472,11 +530,18 @@ int main(int argc, char** argv)
                 }
             }
             auto& s = scripts[nact - 1];
-            int nn = (int) R.below(4);
+            int nn = focus ? 5 + (int) R.below(20) : (int) R.below(4);
+            bool burst = focus || R.chance(1, 2);
             for (int i = 0; i < nn; ++i)
             {
-                s.push_back({o_yield, 0, false});
+                if (!burst) s.push_back({o_yield, 0, false});
                 s.push_back({R.chance(1, 2) ? o_notify_all : o_notify_one, 0, false});
+            }
+            if (burst)    // woken waiters re-enter their loop while the stop request arrives
+            {
+                for (int i = 0; i < 2; ++i) s.push_back({o_notify_all, 0, false});
+                // the stop request is swept across the moment the woken waiters come round their loop
+                if (R.chance(1, 2)) s.push_back({o_yield, 1 + (long) R.below(focus ? 30000 : 6000), false});
             }
             s.push_back({o_request_stop, 0, false});
         }
@@ -532,7 +597,7 @@ int main(int argc, char** argv)
         std::vector<std::thread> os_threads;
         std::vector<int> lingers(nact, 0);
         for (int a = 0; a < nact; ++a)
-            if (cvmode && R.chance(1, 3)) lingers[a] = 10 + (int) R.below(150);
+            if (cvmode && (focus || R.chance(1, 3))) lingers[a] = 10 + (int) R.below(focus ? 220 : 150);
         for (int a = 0; a < nact; ++a)
         {
             auto body = [&, a] {
